@@ -209,7 +209,8 @@ static void op_push(Run &r, Box &b, Tape &t, bool fore, int sort_after)
     {
         uint64_t fb = g_shim.faults;
         size_t oldnum = b.num();
-        void *p = b.is_buf ? (fore ? a_buf_push_fore(b.b) : a_buf_push_back(b.b)) : (fore ? a_vec_push_fore(b.v) : a_vec_push_back(b.v));
+        bool generic = !fore && (r.opno & 3) == 0; // the generic spellings a_vec_push / a_buf_push (= push_back)
+        void *p = b.is_buf ? (fore ? a_buf_push_fore(b.b) : generic ? a_buf_push(b.b) : a_buf_push_back(b.b)) : (fore ? a_vec_push_fore(b.v) : generic ? a_vec_push(b.v) : a_vec_push_back(b.v));
         r.cx.log("%s push_%s key %u -> %s\n", b.is_buf ? "buf" : "vec", fore ? "fore" : "back", key, p ? "ok" : "null");
         if (!p)
         {
@@ -305,6 +306,7 @@ static void op_remove(Run &r, Box &b, Tape &t, int kind) // 0 remove(idx) 1 pull
     r.cx.log("%s %s(%zu) of %zu (%s) ...\n", b.is_buf ? "buf" : "vec", kind == 0 ? "remove" : kind == 1 ? "pull_fore" : "pull_back", idx, oldnum, spare ? "spare slot" : "exactly full");
     if (kind == 0) { p = b.is_buf ? a_buf_remove(b.b, idx) : a_vec_remove(b.v, idx); }
     else if (kind == 1) { p = b.is_buf ? a_buf_pull_fore(b.b) : a_vec_pull_fore(b.v); }
+    else if ((r.opno & 3) == 0) { p = b.is_buf ? a_buf_pull(b.b) : a_vec_pull(b.v); } // generic spelling (= pull_back)
     else { p = b.is_buf ? a_buf_pull_back(b.b) : a_vec_pull_back(b.v); }
     r.cx.log("  -> %s\n", p ? "ok" : "null");
     if (oldnum == 0)
@@ -891,7 +893,7 @@ static void run_history(Tape &t, Ctx &cx, uint64_t fail_at, int mode, uint64_t *
             verify(r, b, "fill to capacity");
             break; }
         case 17:
-            if (!b.is_buf && !(opb & 0x40) && !no_heavy())
+            if (!b.is_buf && !(opb & 0x40) && !no_heavy() && r.nbox == 1) // (with two vectors this operation byte is the swap below)
             {
                 // grow a vector to several hundred elements and then up to num == mem: the exactly-full state at a size where
                 // the trailing part of a removal is kilobytes long
